@@ -135,3 +135,70 @@ Theorem C08_vmdk_backend :
                              | Ok p => Ok (Model.Vmdk.plan_of_x p) | Err => Err | Fuel => Fuel end)).
 Proof. intros f sp hp a H1 H2 H3. exact (contract_backend_ok _ _ _ _ (vmdk_sparse_contract f sp hp a H1 H2 H3)). Qed.
 Print Assumptions C08_vmdk_backend.
+
+(* 7. Byte level, per format: for every well-formed image, every stream buffer size the format allows, every
+      content of the backing files and every finite history of seek/read/peek/readoffset/tell, the stream
+      returns exactly the slices of the immutable guest array (the format's pointwise specification). *)
+Section PerFormatBytes.
+  Context {B : Type}.
+  Variable zero : B.
+  Variables file data parent : Z -> B.
+  Variable infl : Z -> Z -> B.
+  Notation G := (guest zero file data parent infl).
+  Notation BK := (bytes_backend zero file data parent infl).
+
+  Theorem C08_vhd_dynamic_stream_bytes : forall d align,
+    wf_dyn d -> 0 < align -> align mod 512 = 0 ->
+    forall ops, exists st',
+      brun (d_size d) align
+        (BK (fun off len => dyn_read d (fuel_for (cdiv (Z.min len (d_size d - off)) SECTOR)) off len)) binit ops =
+      Ok (st', map (array_out (G (Vhd.guest_src d))) (spec_run (d_size d) 0 ops)).
+  Proof. exact (vhd_dyn_stream_bytes zero file data parent infl). Qed.
+
+  Theorem C08_vhd_fixed_stream_bytes : forall size align,
+    0 <= size -> 0 < align -> align mod 512 = 0 ->
+    forall ops, exists st',
+      brun size align (BK (fun off len => Ok (fixed_read size off len))) binit ops =
+      Ok (st', map (array_out (G fixed_src)) (spec_run size 0 ops)).
+  Proof. exact (vhd_fixed_stream_bytes zero file data parent infl). Qed.
+
+  Theorem C08_vhdx_stream_bytes : forall x align,
+    geom_ok x -> states_ok x -> vhdx_wf_nodiff x -> 0 < align -> align mod x_ss x = 0 ->
+    forall ops, exists st',
+      brun (x_size x) align
+        (BK (fun off len => vhdx_read x (vhdx_fuel (cdiv (Z.min len (x_size x - off)) (x_ss x))) off len)) binit ops =
+      Ok (st', map (array_out (G (vhdx_src x))) (spec_run (x_size x) 0 ops)).
+  Proof. exact (vhdx_stream_bytes zero file data parent infl). Qed.
+
+  Theorem C08_hds_stream_bytes : forall h align,
+    0 < h_cs h -> hds_wf h -> 0 < align ->
+    forall ops, exists st',
+      brun (h_size h) align (BK (fun off len => hds_read h (hds_fuel len) off len)) binit ops =
+      Ok (st', map (array_out (G (hds_src h))) (spec_run (h_size h) 0 ops)).
+  Proof. exact (hds_stream_bytes zero file data parent infl). Qed.
+
+  Theorem C08_qcow2_stream_bytes : forall (im : Model.Qcow2.image) align,
+    Proofs.Qcow2.wf_image im -> Spec.Qcow2.conformant (Model.Qcow2.spec_of im) (Model.Qcow2.size_of im) ->
+    0 <= Model.Qcow2.size_of im -> 0 < align ->
+    forall ops, exists st',
+      brun (Model.Qcow2.size_of im) align
+        (BK (fun off len => Model.Qcow2.qcow2_read im (S (Z.to_nat (Z.min len (Model.Qcow2.size_of im - off)))) off len))
+        binit ops =
+      Ok (st', map (array_out (G (Model.Qcow2.guest_src im))) (spec_run (Model.Qcow2.size_of im) 0 ops)).
+  Proof. exact (qcow2_stream_bytes zero file data parent infl). Qed.
+
+  Theorem C08_vmdk_stream_bytes : forall (f : Model.Vmdk.vfile) (sp : Model.Vmdk.sparse) hp align,
+    Proofs.Vmdk.wf_sparse f sp -> 0 < align -> align mod 512 = 0 ->
+    forall ops, exists st',
+      brun (Model.Vmdk.sp_capacity sp * 512) align
+        (BK (fun off len => match Model.Vmdk.vmdk_read (Model.Vmdk.mk_vmdk [Model.Vmdk.XSparse f sp hp]) off len with
+                            | Ok p => Ok (Model.Vmdk.plan_of_x p) | Err => Err | Fuel => Fuel end)) binit ops =
+      Ok (st', map (array_out (G (Model.Vmdk.guest_src f sp 0 hp))) (spec_run (Model.Vmdk.sp_capacity sp * 512) 0 ops)).
+  Proof. exact (vmdk_sparse_stream_bytes zero file data parent infl). Qed.
+End PerFormatBytes.
+Print Assumptions C08_vhd_dynamic_stream_bytes.
+Print Assumptions C08_vhd_fixed_stream_bytes.
+Print Assumptions C08_vhdx_stream_bytes.
+Print Assumptions C08_hds_stream_bytes.
+Print Assumptions C08_qcow2_stream_bytes.
+Print Assumptions C08_vmdk_stream_bytes.
